@@ -978,6 +978,36 @@ func genC17(r *Rng, e *Emitter, n int) {
 			e.emit("C17.call", desc, fmt.Sprintf("(m (%d %d %d %d) ())", K, 1, diff, 0))
 		}
 	}
+	// what a call returns has nothing to do with the calls made before it: a file without a date
+	// header read after differently dated files
+	{
+		undated := []byte("AXXXverif\r\nB1101355206343N00006198WA0058700558\r\nB1101455206259N00006295WA0059300556\r\n")
+		dated := func(d string) []byte {
+			return []byte("AXXXverif\r\nHFDTE" + d + "\r\nB1101355206343N00006198WA0058700558\r\n")
+		}
+		read := func(b []byte) string {
+			t, err := igc.Read(bytes.NewReader(b))
+			if t == nil {
+				return fmt.Sprintf("(nil %v)", err != nil)
+			}
+			return fmt.Sprintf("(%s %d %v)", sxCoord(t.LineString.FlatCoords()), len(t.Headers), err != nil)
+		}
+		desc := "(encoding/igc.Read undated-after-dated)"
+		e.pending("C17.batch", "("+desc+")")
+		diff := 0
+		var first string
+		for k, d := range []string{"020418", "311299", "010170", "150669"} {
+			guard(func() string { return read(dated(d)) })
+			got := guard(func() string { return read(undated) })
+			if k == 0 {
+				first = got
+			} else if got != first {
+				diff++
+			}
+		}
+		e.tally("undated-after-dated")
+		e.emit("C17.call", desc, fmt.Sprintf("(m (%d %d %d %d) ())", 4, 1, diff, 0))
+	}
 	for e.count < n {
 		switch {
 		case r.chance(1, 6):
